@@ -113,7 +113,7 @@ def main(argv=None):
   env['MKL_NUM_THREADS'] = '1'
   env['TF_NUM_INTRAOP_THREADS'] = '1'
   env['TF_NUM_INTEROP_THREADS'] = '1'
-  xla = '--xla_cpu_multi_thread_eigen=false intra_op_parallelism_threads=1'
+  xla = '--xla_cpu_multi_thread_eigen=false'
   env['XLA_FLAGS'] = (xla + ' ' + env.get('XLA_FLAGS', '')).strip()
   for k, v in getattr(mod, 'ENV', {}).items():
     if k == 'XLA_FLAGS':
@@ -272,7 +272,7 @@ def main(argv=None):
     verdict, rc = 'held-on-observed', 0
   evidence['verdict'] = verdict
 
-  if not args.replay:
+  if not args.replay and not os.environ.get('VMON_NO_EVIDENCE'):
     with open('/root/.vp/EVIDENCE.schema.json' if os.path.exists('/root/.vp/EVIDENCE.schema.json') else os.path.join(
         VERIF_ROOT, 'schemas', 'EVIDENCE.schema.json')) as f:
       schema = json.load(f)
@@ -305,8 +305,14 @@ def main(argv=None):
   for v, path in replay_paths:
     print(f"  violation key={v['key']} case={v['case']}: {v['what']}")
     print(f'VIOLATION property={prop} replay={path}')
-  for p in harness_problems + inconcl[:10]:
-    print(f'INCONCLUSIVE property={prop} reason={p}')
+  shown = set()
+  for p in harness_problems + inconcl:
+    short = p if len(p) < 700 else p[:250] + ' ... ' + p[-400:]
+    sig = short.split(':', 1)[-1][:200]
+    if sig in shown or len(shown) > 12:
+      continue
+    shown.add(sig)
+    print(f'INCONCLUSIVE property={prop} reason={short}')
   print(f'verdict: {verdict}')
   return rc
 
